@@ -264,6 +264,76 @@ def rule_errmap(prog, rep):
             rep.finding("C07.ERRMAP", f.name, "ok-guard", "DiagnosticList::%s can return Ok for a non-empty list" % nm, f.loc())
 
 
+def rule_braces(prog, rep):
+    """C07.BRACES: the outer braces of a standalone selection set come in pairs.  Read on the CFG of
+    field_set with boolean flags propagated along each path: a path that consumes `{` must go
+    through `expect('}')` (which reports the missing brace) or through an error; a `}` is consumed
+    as a closing brace only on a path that consumed `{`.  Otherwise `{ id` or `id }` is accepted."""
+    rep.floor("C07.BRACES", 1)
+    g0 = prog.fn(r"^apollo_parser::parser::grammar::selection::field_set$")
+    g = prog.inline(g0, keep=r"Parser::<'input>::|grammar::selection::selection$")
+    from ..flow import reachable_cp
+    opens = [c for c in g.live_calls() if re.search(r"Parser::<'input>::bump$", c.name) and "L_CURLY" in g.sym(c.args[1])]
+    closes_expect = [c for c in g.live_calls() if re.search(r"Parser::<'input>::expect$", c.name) and "R_CURLY" in g.sym(c.args[2])]
+    closes_bump = [c for c in g.live_calls() if re.search(r"Parser::<'input>::(bump|eat)$", c.name) and "R_CURLY" in g.sym(c.args[1])]
+    errs = [c.block for c in g.live_calls() if re.search(ERR_CALLS, c.name)]
+    if not opens:
+        rep.instance("C07.BRACES", "field_set never consumes an outer `{` (braces are not part of the standalone syntax here)")
+        return
+    ok = True
+    # (a) after `{`: every path to the end passes expect('}') or an error (walk with flags known)
+    through = set(c.block for c in closes_expect) | set(errs)
+    for o in opens:
+        # start at the entry so that the flag set before the bump is known on the path
+        reach = reachable_cp(g, [0], avoid=through)
+        leaked = [b for b in g.return_blocks() if b in reach]
+        # only paths that actually went through the bump matter: check reachability from the bump's
+        # own target with the same avoidance, intersected with what is reachable from the entry
+        reach_o = reachable_cp(g, [o.target], avoid=through) if o.target is not None else set()
+        flagged = any(b in reach_o for b in g.return_blocks())
+        if flagged:
+            # confirm with flags: is there a flag-consistent path entry -> bump -> return avoiding `through`?
+            from ..flow import cp_transfer, cp_switch_target
+            found = [False]
+            seen = set()
+
+            def walk(b, envt, opened):
+                if found[0] or (b, envt, opened) in seen:
+                    return
+                seen.add((b, envt, opened))
+                if b in through:
+                    return
+                env = cp_transfer(g, b, dict(envt))
+                if b == o.block:
+                    opened = True
+                t = g.term(b)
+                if t[0] == "ret":
+                    if opened:
+                        found[0] = True
+                    return
+                succ = g.succs()[b]
+                if t[0] == "switch":
+                    tg = cp_switch_target(g, b, env)
+                    if tg is not None:
+                        succ = [tg]
+                e2 = tuple(sorted(env.items(), key=lambda kv: kv[0]))
+                for s2 in succ:
+                    walk(s2, e2, opened)
+
+            walk(0, (), False)
+            if found[0]:
+                ok = False
+                rep.finding("C07.BRACES", g0.name, "unclosed", "a path consumes the outer `{` and reaches the end without `expect('}')` and without an error: `{ id` is accepted as a field set", o.loc())
+    # (b) a `}` consumed by bump/eat (not by expect) needs the `{` before it on every path
+    for c in closes_bump:
+        if not any(g.dominates(o.block, c.block) for o in opens):
+            ok = False
+            rep.finding("C07.BRACES", g0.name, "unopened", "a closing `}` is consumed on a path that did not consume an opening `{`: `id }` is accepted as a field set", c.loc())
+    if ok:
+        rep.instance("C07.BRACES", "field_set: `{` is followed by expect('}') on every path, and no `}` is consumed without its `{`")
+
+
 def run(prog, rep):
     rule_eof(prog, rep)
+    rule_braces(prog, rep)
     rule_errmap(prog, rep)
